@@ -214,13 +214,15 @@ Definition p_step (t : pstate) (o : op) : pstate * pout :=
       end)
   | HSync i | HName i => with_h i (fun h => (t, PSucc))
   (* ---- directory reading: the sorted listing of the directory the handle is bound to, from the
-          handle's offset; count <= 0 means everything that is left ---- *)
+          handle's offset (clamped to the listing if entries were removed since the previous call);
+          count <= 0 means everything that is left ---- *)
   | HReaddir i n | HReaddirnames i n => with_h i (fun h =>
       match pinode t (pino h), pname_of t (pino h) with
       | Some (IDir _), Some d =>
-          let rest := skipn (prdc h) (plisting t d) in
+          let off := Nat.min (prdc h) (length (plisting t d)) in
+          let rest := skipn off (plisting t d) in
           let out := if 0 <? n then Nat.min (length rest) (Z.to_nat n) else length rest in
-          (seth i (mkPH (pino h) (ppos h) (prdc h + out) (pclosed h) (pro h)),
+          (seth i (mkPH (pino h) (ppos h) (off + out) (pclosed h) (pro h)),
            PNames (firstn out rest) ((0 <? n) && Nat.eqb (length rest) 0))
       | _, _ => (t, PFail COther)
       end)
